@@ -29,6 +29,7 @@ type half struct {
 	waiters  int   // readers blocked because the queue is empty
 	window   int   // > 0: a writer blocks while this many octets are unread (a peer that stops reading stalls it); < 0: every write blocks
 	wwaiters int   // writers blocked by the window
+	dlgen    int64 // number of deadline changes so far
 }
 
 func newHalf() *half { h := &half{}; h.cond = sync.NewCond(&h.mu); return h }
@@ -99,6 +100,7 @@ func (h *half) setDeadline(t time.Time) {
 	h.mu.Lock()
 	defer h.mu.Unlock()
 	h.deadline = t
+	h.dlgen++
 	if h.timer != nil {
 		h.timer.Stop()
 		h.timer = nil
@@ -192,6 +194,14 @@ func (c *Conn) PeerBlockedInRead() bool {
 	c.w.mu.Lock()
 	defer c.w.mu.Unlock()
 	return c.w.waiters > 0 && len(c.w.buf) == 0
+}
+
+// ReadDeadlineGen counts the changes of this end's read deadline so far (two equal values: nobody touched
+// it in between).
+func (c *Conn) ReadDeadlineGen() int64 {
+	c.r.mu.Lock()
+	defer c.r.mu.Unlock()
+	return c.r.dlgen
 }
 
 // CloseWrite half-closes: the peer reads EOF after draining.
